@@ -103,9 +103,19 @@ func c09spellings(c *fw.Check, w uint64, v *big.Int) int64 {
 	if u.Bit(int(w)-1) == 1 {
 		sgn.Sub(sgn, mod)
 	}
-	// decimal as written.
+	// decimal as written, and with leading zeros (LLVM reads them as decimal, not octal).
 	c09parse(c, w, v.String(), v, "dec")
 	n++
+	for _, z := range []string{"0", "00"} {
+		d := v.String()
+		if v.Sign() < 0 {
+			d = "-" + z + d[1:]
+		} else {
+			d = z + d
+		}
+		c09parse(c, w, d, v, "dec-leading-zeros")
+		n++
+	}
 	hex := u.Text(16)
 	for _, h := range []string{strings.ToUpper(hex), hex, "0" + hex, "000" + strings.ToUpper(hex)} {
 		c09parse(c, w, "u0x"+h, u, "u0x")
@@ -262,6 +272,11 @@ func c09asm(c *fw.Check, maxW uint64) {
 			sgn.Sub(sgn, mod)
 		}
 		lits = append(lits, lit{w, v.String(), v}, lit{w, "u0x" + strings.ToUpper(u.Text(16)), u}, lit{w, "s0x" + u.Text(16), sgn})
+		if v.Sign() >= 0 {
+			lits = append(lits, lit{w, "0" + v.String(), v}, lit{w, "000" + v.String(), v})
+		} else {
+			lits = append(lits, lit{w, "-0" + v.String()[1:], v})
+		}
 		if w == 1 && v.Sign() >= 0 {
 			lits = append(lits, lit{w, map[bool]string{true: "true", false: "false"}[u.Sign() != 0], u})
 		}
